@@ -8,6 +8,7 @@
 package main
 
 import (
+	"crypto/sha256"
 	"encoding/hex"
 	"encoding/json"
 	"fmt"
@@ -351,6 +352,8 @@ type refOut struct {
 	steps  int
 	memlen int
 	skipGas bool
+	overlap bool // an identity call whose output area rewrote its own input window
+	calls   int
 }
 
 func boundarySet(code []byte) []bool {
@@ -381,6 +384,10 @@ func refRun(code, input []byte, defined *[256]bool, maxSteps int) (out refOut) {
 	pc := 0
 	bnd := boundarySet(code)
 	steps := 0
+	var rd []byte
+	hazard := false
+	ncalls := 0
+	defer func() { out.overlap = hazard; out.calls = ncalls }()
 	gasyFlag = false
 	refMemLen = 0
 	pop := func() *big.Int { v := stack[len(stack)-1]; stack = stack[:len(stack)-1]; return v }
@@ -469,23 +476,73 @@ func refRun(code, input []byte, defined *[256]bool, maxSteps int) (out refOut) {
 					push(new(big.Int).Set(refEnv[i]))
 				}
 			}
-		case op == 0x3d: // RETURNDATASIZE: no call has been made
+		case op == 0x3d: // RETURNDATASIZE
 			if e := need(0, 1); e != "" {
 				return fail(e)
 			}
-			push(big.NewInt(0))
-		case op == 0x3e: // RETURNDATACOPY from an empty buffer
+			push(big.NewInt(int64(len(rd))))
+		case op == 0x3e: // RETURNDATACOPY: the buffer is the immutable output of the last call
 			if e := need(3, 0); e != "" {
 				return fail(e)
 			}
 			mo, so, n := pop(), pop(), pop()
-			if add(so, n).Sign() > 0 {
-				// the implementation sizes (and charges for) the destination range before it looks at the source
-				if ok, bm := expand(mo, n); !ok {
-					return refOut{kind: "fail:oog", bigmem: bm, steps: steps}
-				}
+			// the implementation sizes (and charges for) the destination range before it looks at the source
+			if ok, bm := expand(mo, n); !ok {
+				return refOut{kind: "fail:oog", bigmem: bm, steps: steps}
+			}
+			if add(so, n).Cmp(big.NewInt(int64(len(rd)))) > 0 {
 				return fail("fail:retdata-oob")
 			}
+			if n.Sign() > 0 {
+				copy(mem[int(mo.Int64()):], rd[int(so.Int64()):int(so.Int64())+int(n.Int64())])
+			}
+		case op == 0xf1 || op == 0xfa: // CALL / STATICCALL to the identity (4) and SHA-256 (2) precompiles, no value
+			k := 6
+			if op == 0xf1 {
+				k = 7
+			}
+			if e := need(k, 1); e != "" {
+				return fail(e)
+			}
+			gasArg, addr := pop(), pop()
+			if op == 0xf1 {
+				if pop().Sign() != 0 {
+					return refOut{kind: "skip", steps: steps}
+				}
+			}
+			inOff, inSize, retOff, retSize := pop(), pop(), pop(), pop()
+			if !(addr.Cmp(big.NewInt(4)) == 0 || addr.Cmp(big.NewInt(2)) == 0) || gasArg.Cmp(big.NewInt(100000)) < 0 {
+				return refOut{kind: "skip", steps: steps}
+			}
+			if ok, bm := expand(inOff, inSize); !ok {
+				return refOut{kind: "fail:oog", bigmem: bm, steps: steps}
+			}
+			if ok, bm := expand(retOff, retSize); !ok {
+				return refOut{kind: "fail:oog", bigmem: bm, steps: steps}
+			}
+			var in []byte
+			if inSize.Sign() > 0 {
+				in = append(in, mem[int(inOff.Int64()):int(inOff.Int64())+int(inSize.Int64())]...)
+			}
+			out := in
+			if addr.Cmp(big.NewInt(2)) == 0 {
+				h := sha256.Sum256(in)
+				out = h[:]
+			}
+			if retSize.Sign() > 0 {
+				n := int(retSize.Int64())
+				if n > len(out) {
+					n = len(out)
+				}
+				copy(mem[int(retOff.Int64()):], out[:n])
+			}
+			if addr.Cmp(big.NewInt(4)) == 0 && inSize.Sign() > 0 &&
+				hex.EncodeToString(mem[int(inOff.Int64()):int(inOff.Int64())+int(inSize.Int64())]) != hex.EncodeToString(in) {
+				hazard = true
+			}
+			rd = append([]byte{}, out...)
+			ncalls++
+			push(big.NewInt(1))
 		case op == 0x36:
 			if e := need(0, 1); e != "" {
 				return fail(e)
@@ -987,6 +1044,117 @@ func (g *gen) junk() []byte {
 	return j
 }
 
+// programs around the return-data buffer: input written to memory, CALL/STATICCALL to the identity (or SHA-256)
+// precompile, the former input area overwritten by memory opcodes, RETURNDATASIZE / RETURNDATACOPY, dump
+func genRetData(r *hx.Rng, f vmx.Fork, overlap bool) []byte {
+	g := &gen{r: r, mcopy: f.P022, push0: f.P022}
+	// touch the whole dump-free area first so that later writes do not reallocate the memory store
+	g.pushV(randWord(r))
+	g.emit(push2(0x3e0)...)
+	g.emit(0x52)
+	g.h--
+	g.block(r.Intn(4), 0, 8)
+	inOff := r.Intn(64)
+	inSize := []int{0, 1, 31, 32, 33, 64}[r.Intn(6)]
+	if r.Intn(3) != 0 {
+		inSize = 1 + r.Intn(96)
+	}
+	for o := 0; o < inOff+inSize; o += 32 {
+		g.pushV(new(big.Int).SetBytes(r.Bytes(32)))
+		g.pushV(big.NewInt(int64(o)))
+		g.emit(0x52)
+		g.h -= 2
+	}
+	addr := 4
+	outLen := inSize
+	if r.Intn(4) == 0 {
+		addr, outLen = 2, 32
+	}
+	retOff, retSize := 0x200+r.Intn(64), []int{0, outLen, outLen / 2, outLen + 7}[r.Intn(4)]
+	if overlap && inSize > 1 { // output area shifted inside the input window
+		retOff = inOff + 1 + r.Intn(inSize-1)
+		retSize = 1 + r.Intn(inSize)
+	}
+	g.pushV(big.NewInt(int64(retSize)))
+	g.pushV(big.NewInt(int64(retOff)))
+	g.pushV(big.NewInt(int64(inSize)))
+	g.pushV(big.NewInt(int64(inOff)))
+	op := byte(0xfa)
+	if r.Bool() {
+		op = 0xf1
+		g.pushV(big.NewInt(0))
+	}
+	g.pushV(big.NewInt(int64(addr)))
+	if r.Bool() {
+		g.emit(0x5a)
+		g.h++
+	} else {
+		g.pushV(big.NewInt(int64(200000 + r.Intn(1000000))))
+	}
+	g.emit(op)
+	if op == 0xf1 {
+		g.h -= 6
+	} else {
+		g.h -= 5
+	}
+	if r.Bool() {
+		g.emit(0x50)
+		g.h--
+	}
+	// overwrite (parts of) the former input area
+	for i := 1 + r.Intn(3); i > 0 && inSize > 0; i-- {
+		at := inOff + r.Intn(inSize)
+		switch r.Intn(4) {
+		case 0:
+			g.pushV(new(big.Int).SetBytes(r.Bytes(32)))
+			g.pushV(big.NewInt(int64(at)))
+			g.emit(0x52)
+			g.h -= 2
+		case 1:
+			g.pushV(big.NewInt(int64(r.Intn(256))))
+			g.pushV(big.NewInt(int64(at)))
+			g.emit(0x53)
+			g.h -= 2
+		case 2:
+			if g.mcopy {
+				g.pushV(big.NewInt(int64(1 + r.Intn(40))))
+				g.pushV(big.NewInt(int64(0x300 + r.Intn(64))))
+				g.pushV(big.NewInt(int64(at)))
+				g.emit(0x5e)
+				g.h -= 3
+			}
+		case 3:
+			g.pushV(big.NewInt(int64(1 + r.Intn(40))))
+			g.pushV(big.NewInt(int64(r.Intn(8))))
+			g.pushV(big.NewInt(int64(at)))
+			g.emit(0x37)
+			g.h -= 3
+		}
+	}
+	g.block(r.Intn(3), g.h, 10)
+	g.emit(0x3d)
+	g.h++
+	n := outLen
+	so := 0
+	switch r.Intn(6) {
+	case 0:
+		if outLen > 0 {
+			so = r.Intn(outLen)
+			n = outLen - so
+		}
+	case 1:
+		n = outLen + 1 // beyond the buffer: fault
+	}
+	g.pushV(big.NewInt(int64(n)))
+	g.pushV(big.NewInt(int64(so)))
+	g.pushV(big.NewInt(int64(0x280 + r.Intn(32))))
+	g.emit(0x3e)
+	g.h -= 3
+	g.block(r.Intn(3), g.h, 12)
+	g.epilogue(false)
+	return g.c
+}
+
 const dumpBase = 0x400
 
 // epilogue: memory size and every stack slot are written behind dumpBase and the whole memory is returned
@@ -1459,10 +1627,21 @@ func main() {
 			if want != got || ((got == "ok" || got == "revert") && hex.EncodeToString(ob.ret) != hex.EncodeToString(ref.ret)) {
 				in["reference"] = ref.kind
 				in["reference_ret"] = hex.EncodeToString(ref.ret)
-				res.Violate("C10/program:"+kind, "real EVM and reference machine disagree: "+got+" vs "+want, in)
+				key := "C10/program:" + kind
+				what := "real EVM and reference machine disagree: " + got + " vs " + want
+				if ref.overlap {
+					// CALL to the identity precompile whose output area overlaps its input window: dataCopy.Run hands back
+					// the caller's memory window, opCall writes the output into it, and only then is the buffer copied
+					key = "C10/returndata:identity-in-out-overlap"
+					what = "return data after a CALL to the identity precompile with overlapping input/output areas is not the precompile's output: " + got + " vs " + want
+				} else if ref.calls > 0 {
+					key = "C10/returndata:" + kind
+					what = "return data / memory after a precompile call differ from the reference (immutable return-data snapshot): " + got + " vs " + want
+				}
+				res.Violate(key, what, in)
 			}
 		}
-		modelOK := ref.memlen <= 1<<16 && (ref.kind != "skip" || ref.skipGas || gas <= 39000)
+		modelOK := ref.calls == 0 && ref.memlen <= 1<<16 && (ref.kind != "skip" || ref.skipGas || gas <= 39000)
 		if toModel && len(code) < 1400 && modelOK {
 			addCase(f, fmt.Sprintf("CProg %s %s %d %s (%s)", hx.CoqHex(code), hx.CoqHex(input), gas, envCoq(gas), ob.coq()), in)
 		}
@@ -1486,7 +1665,13 @@ func main() {
 		var code []byte
 		kind := "structured"
 		sha3Emitted = false
-		switch k := rng.Intn(10); {
+		hasCall := false
+		switch k := rng.Intn(12); {
+		case k >= 10:
+			ov := rng.Intn(5) == 0
+			code = genRetData(rng, f, ov)
+			kind = "retdata"
+			hasCall = true
 		case k < 6:
 			code = genProgram(rng, f)
 		case k < 9:
@@ -1500,14 +1685,14 @@ func main() {
 		if kind == "soup" && rng.Intn(2) == 0 {
 			gas = []uint64{0, 1, 2, 5, 20, 100, 1000, 100000}[rng.Intn(8)]
 		}
-		toModel := true
+		toModel := !hasCall
 		ob := progCase(f, code, input, gas, kind, toModel)
 		// gas boundary: exactly enough, one short, half
-		if ob.class == "ok" && rng.Intn(3) == 0 && !strings.Contains(kind, "soup") {
+		if ob.class == "ok" && rng.Intn(3) == 0 && !strings.Contains(kind, "soup") && !hasCall {
 			used := gas - ob.left
 			hasGasOp := false
 			for _, b := range code {
-				if b == 0x5a {
+				if b == 0x5a || b == 0x45 { // GAS, GASLIMIT: the result depends on the gas supplied
 					hasGasOp = true
 				}
 			}
